@@ -96,12 +96,18 @@ func hOff(v string) uint64 {
 	if v == "ghi" {
 		return 50
 	}
+	if v == "gdeg" { // routers without a degenerate form: one more ordinary root, elsewhere
+		return 20
+	}
 	return 0
 }
 
 func vnum(v string) uint64 {
 	if v == "ghi" {
 		return 3
+	}
+	if v == "gdeg" {
+		return 4
 	}
 	if v == "g2" {
 		return 2
@@ -361,7 +367,64 @@ func allRouters() []*routerFx {
 		}
 		return []byte(s)
 	}})
+	for _, r := range rs {
+		r := r
+		normal := r.genesis
+		r.genesis = func(v string) []byte {
+			if v == "gdeg" {
+				if d := degenerate(r.name); d != nil {
+					return d
+				}
+			}
+			return normal(v)
+		}
+	}
 	return rs
+}
+
+// degenerate: "degenerate but accepted" first trust roots (empty / zero optional fields, height 0).  Only forms the real
+// SyncGenesisHeader accepts on a fresh chain are listed; every other router gets one more ordinary root for "gdeg".
+func degenerate(name string) []byte {
+	zeroHdr := func(num uint64) *eth.Header {
+		return &eth.Header{UncleHash: etypes.EmptyUncleHash, Number: new(big.Int).SetUint64(num), Difficulty: big.NewInt(1), Extra: []byte{}, GasLimit: 5000}
+	}
+	switch name {
+	case "eth":
+		return mustJSON(ethGenesis("gdeg"))
+	case "cosmos":
+		hdr := tmtypes.Header{ChainID: "verif-cosmos", Height: cosmosGenesisHeight("gdeg")}
+		hdr.Version.Block = 10
+		b, _ := cosmos.Cdc.MarshalBinaryBare(&cosmos.CosmosHeader{Header: hdr, Commit: &tmtypes.Commit{}})
+		return b
+	case "okex":
+		hdr := tmtypes.Header{ChainID: "verif-okex", Height: 1}
+		b, _ := okex.NewCDC().MarshalBinaryBare(&okex.CosmosHeader{Header: hdr, Commit: &tmtypes.Commit{}})
+		return b
+	case "heimdall":
+		hdr := polygonTypes.Header{ChainID: "verif-heimdall", Height: 1}
+		b, _ := polygonTypes.NewCDC().MarshalBinaryBare(&polygon.CosmosHeader{Header: hdr, Commit: &polygonTypes.Commit{}})
+		return b
+	case "ont": // a header that names no validator set at all
+		h := &otypes.Header{Height: 0, ConsensusPayload: []byte("{}")}
+		sink := ocommon.NewZeroCopySink(nil)
+		h.Serialization(sink)
+		return sink.Bytes()
+	case "quorum": // istanbul extra with an empty validator list
+		ist, _ := rlp.EncodeToBytes(&quorum.IstanbulExtra{Validators: []ecommon.Address{}, Seal: []byte{}, CommittedSeal: [][]byte{}})
+		g := gethHeader(0, "gdeg", append(make([]byte, quorum.IstanbulExtraVanity), ist...), ecommon.Address{})
+		return mustJSON(g)
+	case "btc": // all-zero header at height 0
+		var buf bytes.Buffer
+		h := wire.BlockHeader{Timestamp: time.Unix(0, 0)}
+		h.BtcEncode(&buf, wire.ProtocolVersion, wire.LatestEncoding)
+		return append(buf.Bytes(), 0, 0, 0, 0)
+	case "bor": // snapshot without a validator set
+		return mustJSON(&polygon.HeaderWithOptionalSnap{Header: *zeroHdr(0), Snapshot: &polygon.Snapshot{}})
+	case "msc": // epoch block 0 with a single validator
+		_, addrs := evmKeys("msc/gdeg", 1)
+		return mustJSON(gethHeader(0, "gdeg", posaExtra(addrs), addrs[0]))
+	}
+	return nil
 }
 
 func routerByName(name string) *routerFx {
